@@ -539,6 +539,21 @@ class Func:
             if b == self.exit:
                 res.append(list(path))
                 return
+            # an assumption about an lvalue does not survive an assignment to it (tmp->ev tested, allocated, tested again)
+            dropped = {}
+            if prune and assumed:
+                for ev in self.blocks[b].events:
+                    if ev.kind in ("assign", "incdec", "decl") and ev.lhs is not None:
+                        lv = S(ev.lhs)
+                        for a in [a for a in assumed if _mentions(a, lv)]:
+                            dropped[a] = assumed.pop(a)
+            try:
+                return rec2(b, path, assumed)
+            finally:
+                for a, v in dropped.items():
+                    assumed.setdefault(a, v)
+
+        def rec2(b, path, assumed):
             for (s, cond, br) in self.edges(b):
                 if (b, s) in back:
                     if loop_fragments:
